@@ -42,13 +42,26 @@ var c18PresetIdx = 0
 // c18PartialOnFail: a failing build returns a non-nil manager together with its error
 var c18PartialOnFail = false
 
+// wrapMgr: a template manager of ANOTHER concrete type (a themed / fallback wrapper around the html manager); successive
+// builds may return managers of different types
+type wrapMgr struct{ types.TemplateManager }
+
 func poolMgr(id int) types.TemplateManager {
 	if m, ok := mgrPool[id]; ok {
 		return m
 	}
+	if id%2 == 1 && id != 777 {
+		inner := poolMgr(-id - 1000)
+		mgrPool[id] = wrapMgr{inner}
+		return mgrPool[id]
+	}
 	m := html.NewTplManager()
 	for _, n := range []int{1, 2} {
-		if err := m.Add(fmt.Sprintf("n%d", n), strings.NewReader(fmt.Sprintf("<p>m%d:n%d</p>", id, n))); err != nil {
+		shown := id
+		if id <= -1000 {
+			shown = -id - 1000 // the inner manager of a wrapper shows the wrapper's id
+		}
+		if err := m.Add(fmt.Sprintf("n%d", n), strings.NewReader(fmt.Sprintf("<p>m%d:n%d</p>", shown, n))); err != nil {
 			panic(err)
 		}
 	}
@@ -379,11 +392,22 @@ func propC18(c *ctx) error {
 	}
 	rr, _ := tpl.NewHTMLRender(builder)
 	bad := 0
+	panicMsg := ""
 	var bmu sync.Mutex
 	for g := 0; g < 8; g++ {
 		wg.Add(1)
 		go func(g int) {
 			defer wg.Done()
+			defer func() {
+				if x := recover(); x != nil {
+					bmu.Lock()
+					bad++
+					if panicMsg == "" {
+						panicMsg = fmt.Sprint(x)
+					}
+					bmu.Unlock()
+				}
+			}()
 			for k := 0; k < 200; k++ {
 				if g == 0 {
 					rr.Reload(context.Background())
@@ -402,7 +426,7 @@ func propC18(c *ctx) error {
 	res.S3Checked++
 	res.eval("concurrent-reload", true, J{"goroutines": 8, "requests": 1400})
 	if bad > 0 {
-		res.violate(J{"concurrent": true}, "every request served from a built set", fmt.Sprintf("%d requests failed or were torn", bad), "concurrent Reload disturbs requests")
+		res.violate(J{"concurrent": true}, "every request served from a built set", fmt.Sprintf("%d requests failed or were torn; first panic: %s", bad, panicMsg), "concurrent Reload disturbs requests")
 	}
 	// Reload concurrent with requests under the race detector (separate binary built with -race)
 	return propC15(c)
